@@ -190,27 +190,7 @@ def flag_cfg(fn: ast.AST, flag: str, value: bool) -> cfgmod.CFG:
   return g
 
 
-def unfold(e: ast.AST, node, g: cfgmod.CFG, rd: flow.ReachingDefs, flag: Optional[Tuple[str, bool]] = None, depth: int = 0) -> ast.AST:
-  """Replaces locals by their unique reaching definition (recursively); the flag parameter by its assumed value."""
-  import copy as _copy
-  if depth > 6:
-    return e
-
-  class U(ast.NodeTransformer):
-    def visit_Name(self, n):
-      if not isinstance(n.ctx, ast.Load):
-        return n
-      if flag is not None and n.id == flag[0]:
-        return ast.copy_location(ast.Constant(value=flag[1]), n)
-      ds = [d for d in rd.at(node, n.id)]
-      if len(ds) == 1 and ds[0].kind == 'assign' and ds[0].value is not None and ds[0].index is None and ds[0].node_id >= 0:
-        dn = g.nodes[ds[0].node_id]
-        if dn.id not in g_reach:
-          return n
-        return unfold(_copy.deepcopy(ds[0].value), dn, g, rd, flag, depth + 1)
-      return n
-  g_reach = {x.id for x in g.reachable([g.entry], include_starts=True)}
-  return U().visit(_copy.deepcopy(e) if depth == 0 else e)
+unfold = flow.unfold
 
 
 def simplify_bool(e: ast.AST) -> ast.AST:
